@@ -7,6 +7,7 @@
      on closed types the relation IS equality ([nat_R a b <-> a = b] ...), on [list W] it is
      [Forall2 R] (and [l' = map f l] when [R a b := b = f a]). *)
 From Coq Require Import List Arith Bool.
+From OPF Require Import Base.Lists Model.Heap.
 From Param Require Import Param.
 Import ListNotations.
 
@@ -21,6 +22,31 @@ Parametricity Recursive bool.
 Parametricity Recursive option.
 Parametricity Recursive list.
 Parametricity Recursive prod.
+
+(* shared vocabulary, translated once so that ParamSup.v and ParamKnn.v reuse the same constants *)
+Parametricity Recursive Nat.eqb.
+Parametricity Recursive Nat.leb.
+Parametricity Recursive Nat.ltb.
+Parametricity Recursive negb.
+Parametricity Recursive andb.
+Parametricity Recursive length.
+Parametricity Recursive app.
+Parametricity Recursive rev.
+Parametricity Recursive map.
+Parametricity Recursive firstn.
+Parametricity Recursive existsb.
+Parametricity Recursive combine.
+Parametricity Recursive nth.
+Parametricity Recursive repeat.
+Parametricity Recursive seq.
+Parametricity Recursive fold_left.
+Parametricity Recursive upd.
+Parametricity Recursive heap.
+Parametricity Recursive h_init.
+Parametricity Recursive set_cost.
+Parametricity Recursive insert.
+Parametricity Recursive remove.
+Parametricity Recursive update.
 
 (* ---------- closed types: the relation is equality ---------- *)
 
